@@ -84,6 +84,12 @@ def run(ctx):
     must = [pools.option(scenario="industrial_foods", shutoff="continued"),
             pools.option(ratio_stocks_untouched="no_stored_between_years", shutoff="continued"), dict(pools.BASELINE_OPTION)]
     real = pools.sample_runs(rng, nreal, must=must, horizons=(120,) if ctx.quick else (48, 96, 120))
+    # the 'no cap on human intake' mode together with every capped food (seaweed, SCP, cellulosic sugar), in a coastal
+    # country where seaweed is plentiful (the cap would bind), and one country below 10 million people (the code loosens
+    # tolerances there)
+    real.append({"iso3": "ARG", "option": pools.option(scenario="all_resilient_foods", intake_constraints="disabled_for_humans",
+                                                       shutoff="continued")})
+    real.append({"iso3": rng.choice(["ALB", "JAM", "URY", "NZL", "IRL"]), "option": dict(pools.BASE_OPTION)})
     res = ctx.run_impl("lp_impl", {"synthetic": specs, "real": real, "rows_for_real": ctx.quick is False or True, "procs": 14})
     dist = {"solved_synthetic": 0, "infeasible_synthetic": 0, "real_solves": 0, "to_humans": 0, "to_animals": 0,
             "max_rel_gap": 0.0, "spec_infeasible": 0}
@@ -107,6 +113,16 @@ def run(ctx):
                               dict(kind="counterexample", where=where, lp_in=d, **rerun))
         st, opt, _x = lpspec.solve_spec(d, rec["ty"])
         rep = rec["percent_fed_from_model"]
+        obj0 = lpspec.first_objective(rec)
+        if obj0 is not None and not lpspec.objective_is_pure(obj0):
+            # the number the code reports is the value of the FIRST objective: if that is not the fed share alone the
+            # reported number is not the optimum of the allocation problem (Model/LP.v maximises the objective variable)
+            ctx.tie_ok = False
+            ctx.violation("C02:first-objective-is-not-the-fed-share",
+                          f"the first solve maximises {obj0['terms'][:6]} (sense {obj0['sense']}), not the fed share alone; "
+                          f"reported {rep} vs independent optimum {opt} on {where}",
+                          dict(kind="counterexample", where=where, lp_in=d, reported=rep, independent=opt, ty=rec["ty"],
+                               objective=obj0, **rerun))
         dist[rec["ty"]] += 1
         if st != 0:
             dist["spec_infeasible"] += 1
@@ -121,7 +137,7 @@ def run(ctx):
             # ill-conditioned instances (seaweed ledgers growing several hundred percent a month): is it CBC's precision or
             # the formulation?  Re-solve the code's OWN rows with HiGHS: if that agrees with the specification the LP is
             # right and the gap is solver tolerance (recorded, not a violation)
-            st2, opt2 = lpspec.solve_rows(rec["rows"])
+            st2, opt2 = lpspec.solve_rows(rec["rows"], objective=obj0)
             if st2 == 0 and abs(opt2 - opt) / (1.0 + abs(opt)) <= REL:
                 dist.setdefault("solver_tolerance_cases", []).append({"where": where, "reported": rep, "independent": opt,
                                                                       "own_rows_highs": opt2, "rel_gap": gap})
